@@ -128,32 +128,27 @@ Inductive sres :=
 | SOk (size : N) (c : scontent)   (* the structure decodes; it occupies [size] elements *)
 | SEof                            (* starts outside the file or runs past its end *)
 | SInvalid                        (* decodes but fails the sanity check (UTF-8) *)
-| SFree.                          (* a declared length no serialized structure can have: the property says nothing *)
-
-Definition SLICE_LIMIT : N := 2 ^ 61.   (* a file has fewer than 2^61 elements *)
-Definition BYTES_LIMIT : N := 2 ^ 63.
+| SFree.                          (* MappedOption whose size element is 2^64 - 1: map_len() = size + 1 is undefined *)
 
 Definition sp_slice (elems : N) (file : list N) (off : N) : option (option (N * list N)) :=
-  (* None = free, Some None = eof, Some (Some (n, elements)) *)
+  (* Some None = eof, Some (Some (n, elements)); whatever the declared length, exact arithmetic *)
   match sp_get file off with
   | None => Some None
   | Some n =>
-      if SLICE_LIMIT <=? n then None
-      else match sp_take file (off + 1) (n * elems) with
-           | Some l => Some (Some (n, l))
-           | None => Some None
-           end
+      match sp_take file (off + 1) (n * elems) with
+      | Some l => Some (Some (n, l))
+      | None => Some None
+      end
   end.
 
 Definition sp_bytes (file : list N) (off : N) : option (option (N * list N)) :=
   match sp_get file off with
   | None => Some None
   | Some n =>
-      if BYTES_LIMIT <=? n then None
-      else match sp_take file (off + 1) ((n + 7) / 8) with
-           | Some l => Some (Some ((n + 7) / 8, firstn (N.to_nat n) (flat_map sp_bytes_of l)))
-           | None => Some None
-           end
+      match sp_take file (off + 1) ((n + 7) / 8) with
+      | Some l => Some (Some ((n + 7) / 8, firstn (N.to_nat n) (flat_map sp_bytes_of l)))
+      | None => Some None
+      end
   end.
 
 Definition sp_raw (file : list N) (off : N) : sres :=
@@ -197,7 +192,7 @@ Fixpoint spec_decode (t : vtype) (file : list N) (off : N) : sres :=
       | None => SEof
       | Some s =>
           if s =? 0 then SOk 1 (SOpt None)
-          else if SLICE_LIMIT <=? s then SFree
+          else if 2 ^ 64 - 1 <=? s then SFree
           else match spec_decode t' file (off + 1) with
                | SOk _ c => SOk (s + 1) (SOpt (Some c))   (* the size element is what load/skip trust *)
                | r => r
@@ -246,6 +241,7 @@ Definition spec_ok (file : list N) (o : vobs) : bool :=
       | SOk size s, OOk (IOk mo) (IOk ml) c => (mo =? off) && (ml =? size) && scontent_ok s c
       | SEof, OErr k => k =? 1
       | SInvalid, OErr k => k =? 2
+      | SFree, OPanic _ => false
       | SFree, _ => true
       | _, _ => false
       end
